@@ -20,8 +20,12 @@ pub enum Shape {
     BlocksInout,
     BackendPar,
     BackendBlock,
+    /// backend `*_block_inplace` on each block (what block modes and MACs call)
+    BackendBlockInplace,
+    /// backend `*_par_blocks_inplace` on full chunks + `*_tail_blocks_inplace` on the rest
+    BackendParInplace,
 }
-pub const ALL_SHAPES: [Shape; 8] = [
+pub const ALL_SHAPES: [Shape; 10] = [
     Shape::Block,
     Shape::BlockB2b,
     Shape::BlockInout,
@@ -30,6 +34,8 @@ pub const ALL_SHAPES: [Shape; 8] = [
     Shape::BlocksInout,
     Shape::BackendPar,
     Shape::BackendBlock,
+    Shape::BackendBlockInplace,
+    Shape::BackendParInplace,
 ];
 impl Shape {
     pub fn name(self) -> &'static str {
@@ -42,6 +48,8 @@ impl Shape {
             Shape::BlocksInout => "blocks_inout",
             Shape::BackendPar => "backend_par+tail",
             Shape::BackendBlock => "backend_block",
+            Shape::BackendBlockInplace => "backend_block_inplace",
+            Shape::BackendParInplace => "backend_par_inplace+tail_inplace",
         }
     }
     /// b2b shapes need a separate input buffer.
@@ -93,16 +101,42 @@ struct BackendProbe<'a, BS> {
     inp: Option<&'a [u8]>,
     out: &'a mut [u8],
     per_block: bool,
+    inplace_api: bool,
     _p: core::marker::PhantomData<BS>,
 }
 impl<BS: BlockSizes> BlockSizeUser for BackendProbe<'_, BS> {
     type BlockSize = BS;
 }
 macro_rules! backend_probe_impl {
-    ($closure:ident, $backend:ident, $blk:ident, $par:ident, $tail:ident) => {
+    ($closure:ident, $backend:ident, $blk:ident, $par:ident, $tail:ident, $blk_ip:ident, $par_ip:ident, $tail_ip:ident) => {
         impl<BS: BlockSizes> $closure for BackendProbe<'_, BS> {
             fn call<B: $backend<BlockSize = BS>>(self, backend: &B) {
                 let out = blocks_mut::<BS>(self.out);
+                if self.inplace_api {
+                    // the `_inplace` entry points take `&mut` blocks: data must already be in `out`
+                    if let Some(i) = self.inp {
+                        for (o, a) in out.iter_mut().zip(blocks::<BS>(i)) {
+                            *o = a.clone();
+                        }
+                    }
+                    if self.per_block {
+                        for b in out.iter_mut() {
+                            backend.$blk_ip(b);
+                        }
+                    } else {
+                        let w = B::ParBlocksSize::USIZE;
+                        let (chunks, tail) = Array::<Array<u8, BS>, B::ParBlocksSize>::slice_as_chunks_mut(out);
+                        for c in chunks.iter_mut() {
+                            backend.$par_ip(c);
+                        }
+                        if w > 1 {
+                            backend.$tail_ip(tail);
+                        } else {
+                            assert!(tail.is_empty());
+                        }
+                    }
+                    return;
+                }
                 let buf: InOutBuf<'_, '_, Array<u8, BS>> = match self.inp {
                     Some(i) => InOutBuf::new(blocks::<BS>(i), out).expect("equal lengths"),
                     None => out.into(),
@@ -127,8 +161,8 @@ macro_rules! backend_probe_impl {
         }
     };
 }
-backend_probe_impl!(BlockCipherEncClosure, BlockCipherEncBackend, encrypt_block, encrypt_par_blocks, encrypt_tail_blocks);
-backend_probe_impl!(BlockCipherDecClosure, BlockCipherDecBackend, decrypt_block, decrypt_par_blocks, decrypt_tail_blocks);
+backend_probe_impl!(BlockCipherEncClosure, BlockCipherEncBackend, encrypt_block, encrypt_par_blocks, encrypt_tail_blocks, encrypt_block_inplace, encrypt_par_blocks_inplace, encrypt_tail_blocks_inplace);
+backend_probe_impl!(BlockCipherDecClosure, BlockCipherDecBackend, decrypt_block, decrypt_par_blocks, decrypt_tail_blocks, decrypt_block_inplace, decrypt_par_blocks_inplace, decrypt_tail_blocks_inplace);
 
 macro_rules! dyn_impl {
     ($dyn:ident, $tr:ident, $with:ident, $block:ident, $b2b:ident, $inout:ident, $blocks:ident, $blocks_b2b:ident, $blocks_inout:ident) => {
@@ -188,11 +222,12 @@ macro_rules! dyn_impl {
                         ),
                         None => self.$blocks_inout(blocks_mut::<T::BlockSize>(out).into()),
                     },
-                    Shape::BackendPar | Shape::BackendBlock => {
+                    Shape::BackendPar | Shape::BackendBlock | Shape::BackendBlockInplace | Shape::BackendParInplace => {
                         self.$with(BackendProbe::<T::BlockSize> {
                             inp,
                             out,
-                            per_block: shape == Shape::BackendBlock,
+                            per_block: shape == Shape::BackendBlock || shape == Shape::BackendBlockInplace,
+                            inplace_api: shape == Shape::BackendBlockInplace || shape == Shape::BackendParInplace,
                             _p: core::marker::PhantomData,
                         });
                     }
